@@ -485,6 +485,7 @@ struct Run {
     pub outstanding: Vec<u32>,    // the harness' own view (for generating targets)
     pub finished: Vec<u32>,
     pub last_events: Vec<String>,
+    rtt_fact: String,
 }
 
 fn build_client(c: &Cfg) -> StunClient {
@@ -526,6 +527,7 @@ impl Run {
             outstanding: vec![],
             finished: vec![],
             last_events: vec![],
+            rtt_fact: String::new(),
         }
     }
     fn header(&self) -> String {
@@ -593,6 +595,12 @@ impl Run {
         let ts = if t.is_empty() { "-".to_string() } else { t.iter().map(|(i, f)| format!("{}.{}", i, *f as u8)).collect::<Vec<_>>().join(",") };
         let hs = if h.is_empty() { "-".to_string() } else { h.iter().map(|(i, a, d)| format!("{}.{}.{}", i, a, d)).collect::<Vec<_>>().join(",") };
         let rto = s.rtt.map(|(r, _, _)| r.as_nanos() as u64);
+        // the estimator state and the instant of the last request: not predicted by the model, but part of "nothing
+        // changed" (C17, C12): reported as a fact and compared between consecutive operations by the monitors
+        self.rtt_fact = match s.rtt {
+            Some((r, sr, rv)) => format!("rtt={}.{}.{}.{}", r.as_nanos(), sr.as_nanos(), rv.as_nanos(), s.last_request.map(|d| d.as_nanos().to_string()).unwrap_or("-".into())),
+            None => "rtt=-".to_string(),
+        };
         (format!("T={};H={};K={};M={}", ts, hs, k, m), rto)
     }
 
@@ -623,6 +631,11 @@ impl Run {
                                 glue_sent(&realms, b);
                                 items.push(format!("out:{}:1:MALFORMED", n))
                             }
+                        }
+                        // the configured password (short- or long-term) must not appear in what is sent
+                        if self.cfg.mech != 0 {
+                            let pw = pass_str(0).into_bytes();
+                            if b.windows(pw.len()).any(|w| w == &pw[..]) { extra.push("pwleak=1".to_string()) }
                         }
                         // does stun-rs itself decode what the client emitted?
                         let ok = MessageDecoderBuilder::default().build().decode(b).map(|(_, s)| s == b.len()).unwrap_or(false);
@@ -691,7 +704,7 @@ impl Run {
                 let rr = if self.cfg.reliable { self.cfg.rto } else { rto.unwrap_or(0) };
                 out.rec(&format!("O S {} {} {} {} {} {}", now, idn, rr, method, *room as u8, toks(attrs)));
                 out.imp(&format!("{};{};{}", ret, ev, snap));
-                out.rec(&format!("J {}", extra));
+                out.rec(&format!("J {} {}", extra, self.rtt_fact));
             }
             Op::Ind { method, room, attrs } => {
                 let buf = vec![0u8; if *room { 4096 } else { 19 }];
@@ -710,7 +723,7 @@ impl Run {
                 let (snap, _) = self.snapshot();
                 out.rec(&format!("O N {} {} {} {}", idn, method, *room as u8, toks(attrs)));
                 out.imp(&format!("{};{};{}", ret, ev, snap));
-                out.rec(&format!("J {}", extra));
+                out.rec(&format!("J {} {}", extra, self.rtt_fact));
             }
             Op::Recv { now, decodable, class, method, id, attrs } => {
                 let txid = self.txid_of(*id);
@@ -731,7 +744,7 @@ impl Run {
                 let (ev, extra) = self.events(*now);
                 let (snap, _) = self.snapshot();
                 out.imp(&format!("{};{};{}", ret, ev, snap));
-                out.rec(&format!("J {}", extra));
+                out.rec(&format!("J {} {}", extra, self.rtt_fact));
             }
             Op::Tmo { now } => {
                 out.rec(&format!("O T {}", now));
@@ -742,7 +755,7 @@ impl Run {
                 let (ev, extra) = self.events(*now);
                 let (snap, _) = self.snapshot();
                 out.imp(&format!("{};{};{}", ret, ev, snap));
-                out.rec(&format!("J {}", extra));
+                out.rec(&format!("J {} {}", extra, self.rtt_fact));
             }
         }
         // keep the generator's view of outstanding / finished ids (from the implementation's own events)
